@@ -84,6 +84,12 @@ fn main() {
         r_c11::batch(&args[2]);
         return;
     }
+    if harness.starts_with("c03_table_") {
+        let vals: Vec<u8> = args[2].split(',').filter_map(|x| x.trim().parse::<u64>().ok()).map(|x| x as u8).collect();
+        let out = r_c03::table(&vals);
+        print(&out, &vals);
+        return;
+    }
     if harness.starts_with("c15_") {
         let out = r_c15::run(&[]);
         print(&out, &[]);
